@@ -50,7 +50,8 @@ class Store1:
         i = len(self.trace)
         self.trace.append(name)
         if self.fail_at is not None and i == self.fail_at:
-            raise Fault(f"injected fault at callback #{i} {name}")
+            from memserver import FAULT_CLASSES
+            raise FAULT_CLASSES[getattr(self, "fault_type", None)](f"injected fault at callback #{i} {name}")
         self.events.append(name)
 
     def nxt(self, p):
